@@ -337,6 +337,24 @@ def h_defer_nie(ty, args, *, handlers):
     raise NotImplementedError()
 
 
+class HandlerObj:
+    """
+    A handler that is an *object the application creates and drops* (a callable instance, like a bound method or a
+    closure would be), unlike the module-level handler functions, which never die: whatever pane remembers about a
+    handler by its identity must not outlive it.  `kind` names the pool handler it delegates to.
+    """
+    __slots__ = ('kind', '__weakref__')
+
+    def __init__(self, kind):
+        self.kind = kind
+
+    def __call__(self, ty, args, *, handlers):
+        return HANDLERS[self.kind](ty, args, handlers=handlers)
+
+    def __repr__(self):
+        return f"<HandlerObj {self.kind}>"
+
+
 class FaultyHandler:
     """
     Handler wrapper owned by the simulator: raises an injected exception on the k-th
